@@ -49,7 +49,7 @@ def generate(rng, tier, index):
                             kinds=("node", "str", "int", "iri", "iri2"), density=rng.choice([0.4, 0.6, 0.8]),
                             prop_namespaces=rng.choice([(gen.EX,), (gen.EX, gen.EX_DEEP, gen.EX_DEEPER, gen.OTHER)]),
                             twins=0,    # a plain string that looks like a number is outside C15's domain
-                            same_local_classes=0.12)
+                            same_local_classes=0.12, urn_nodes=rng.choice([0, 0, 0, 0.4]))
     tp = gen.CUSTOM_TYPE if rng.random() < 0.12 else gen.RDF_TYPE
     triples = gen.retype(gen.ensure_class(triples), tp)
     target = gen.gen_target(rng, triples, allow_shape_map=True, type_prop=tp)
